@@ -430,10 +430,23 @@ func (m *Muxer) sender() {
 		}
 	}
 
-	// if we broke out of the loop, consume all packets so tubes can still close
-	for range m.sendQueue {
-	}
-	for range m.prioritySendQueue {
+	// if we broke out of the loop, consume all packets so tubes can still close.
+	// Both queues are drained together: a tube blocked handing a frame to the
+	// priority queue (holding its lock) would otherwise never be released while
+	// this goroutine waits for the ordinary queue to be closed, which Stop only
+	// does once that very tube has closed.
+	sendQueue, prioritySendQueue := m.sendQueue, m.prioritySendQueue
+	for sendQueue != nil || prioritySendQueue != nil {
+		select {
+		case _, more := <-sendQueue:
+			if !more {
+				sendQueue = nil
+			}
+		case _, more := <-prioritySendQueue:
+			if !more {
+				prioritySendQueue = nil
+			}
+		}
 	}
 
 	m.log.WithField("error", err).Debug("muxer sender stopped")
